@@ -25,6 +25,16 @@ def classify(exc):
     return 'other'
 
 
+def stream(payload, rec):
+    """Per-case outcomes are appended to payload['_stream'] as they are produced (when the caller asked for it), so that a
+    crash of this interpreter (heap corruption, abort) loses only the case that was running."""
+    path = payload.get('_stream')
+    if path:
+        with open(path, 'a') as f:
+            f.write(json.dumps(rec) + '\n')
+            f.flush()
+
+
 def main():
     env.setup_sys_path()
     mod, fn = sys.argv[1], sys.argv[2]
